@@ -68,6 +68,10 @@ func schedEligible(fr *frame) bool {
 func (in *interp) schedPoint(canContinue func() bool, what string) {
 	me := in.cur
 	ok := canContinue == nil || canContinue()
+	if in.inInit > 0 && ok {
+		// package initialisers ran before the harness natively: not a scheduling point
+		return
+	}
 	if len(in.threads) <= 1 {
 		if in.inInterferer {
 			if !ok {
